@@ -1143,3 +1143,7 @@ where
         Ok(())
     }
 }
+
+#[cfg(slawlor_ractor_verif)]
+#[path = "/verif/hooks/factory_impl.rs"]
+pub mod verif_probe;
